@@ -33,6 +33,16 @@ SCENARIOS = [
     ("combine name", lambda pp: pp.Combine(pp.Word("a") + pp.Word("b"))("c"), "ab", {"c": "ab"}),
     ("suppressed named token", lambda pp: pp.Suppress(pp.Word("a"))("x") + pp.Word("b")("y"), "a b", {"y": "b"}),
     ("followedby keeps names", lambda pp: pp.FollowedBy(pp.Word("a")("x")) + pp.Word("ab")("y"), "ab", {"x": "a", "y": "ab"}),
+    # a named composite nested in a composite of the same class, in every position (streamline() flattens only unnamed ones)
+    ("named trailing nested sequence", lambda pp: pp.Word("ab")("k") + (pp.Word("12") + pp.Word("12"))("pair"), "a 1 2", {"k": "a", "pair": ["1", "2"]}),
+    ("named leading nested sequence", lambda pp: (pp.Word("12") + pp.Word("12"))("pair") + pp.Word("ab")("k"), "1 2 a", {"k": "a", "pair": ["1", "2"]}),
+    ("named middle nested sequence", lambda pp: pp.Word("ab") + (pp.Word("12") + pp.Word("12"))("pair") + pp.Word("ab"), "a 1 2 b", {"pair": ["1", "2"]}),
+    ("named trailing nested alternation", lambda pp: pp.Literal("x") | (pp.Word("12") | pp.Word("ab"))("v"), "ab", {"v": "ab"}),
+    ("named leading nested alternation", lambda pp: (pp.Word("12") | pp.Word("ab"))("v") | pp.Literal("x"), "ab", {"v": "ab"}),
+    ("named trailing nested Or", lambda pp: pp.Literal("x") ^ (pp.Word("12") ^ pp.Word("ab"))("v"), "ab", {"v": "ab"}),
+    ("named* trailing nested sequence in repetition", lambda pp: pp.OneOrMore(pp.Word("ab") + (pp.Word("12") + pp.Word("12"))("pair*")), "a 1 2 b 2 1",
+     {"pair": [["1", "2"], ["2", "1"]]}),
+    ("named trailing nested Each", lambda pp: pp.Literal("x") & (pp.Word("12") & pp.Word("ab"))("e"), "x 1 a", {"e": ["1", "a"]}),
 ]
 
 
